@@ -478,7 +478,13 @@ void BW_MidiSequencer::setSongNum(int track)
         FileAndMemReader fr;
         fr.openData(m_rawSongsData[m_loadTrackNumber].data(),
                     m_rawSongsData[m_loadTrackNumber].size());
-        parseSMF(fr);
+        if(!parseSMF(fr))
+        {
+            // Same as for a failed load: leave an empty song rather than half-built tracks
+            buildSmfSetupReset(0);
+            m_trackBeginPosition = m_currentPosition;
+            m_loopBeginPosition = m_currentPosition;
+        }
 
         m_format = Format_XMIDI;
     }
